@@ -22,9 +22,12 @@ pub struct Space<S: BDDSymbol> {
 impl<S: BDDSymbol> Space<S> {
     pub fn empty(syms: &[S]) -> Self {
         let k = syms.len();
-        assert!(k <= 4, "function spaces are materialised for k <= 4 only");
+        assert!(k <= 6, "truth tables are u64: at most 6 variables");
         assert!(syms.windows(2).all(|w| w[0] < w[1]));
-        Space { env: Rc::new(BDDEnv::new()), syms: syms.to_vec(), k, full: full_mask(k), by_tt: vec![None; 1usize << (1usize << k)], order: vec![] }
+        // the table indexed by truth table is only materialised for k <= 4; larger spaces are
+        // used through tt() / canon() / intern() with handles kept by the caller
+        let by_tt = if k <= 4 { vec![None; 1usize << (1usize << k)] } else { vec![] };
+        Space { env: Rc::new(BDDEnv::new()), syms: syms.to_vec(), k, full: full_mask(k), by_tt, order: vec![] }
     }
     pub fn nfun(&self) -> usize {
         self.by_tt.len()
@@ -83,5 +86,17 @@ impl<S: BDDSymbol> Space<S> {
             sp.add(tt, h);
         }
         Ok(sp)
+    }
+
+    /// all functions as plain diagrams that were never interned in any environment (what a
+    /// caller gets from `BDD::from`, from another environment, or builds by hand); the
+    /// space's own environment stays fresh
+    pub fn by_foreign(syms: &[S]) -> Self {
+        let mut sp = Self::empty(syms);
+        for tt in 0..sp.nfun() as u64 {
+            let c = sp.canon(tt);
+            sp.add(tt, c);
+        }
+        sp
     }
 }
